@@ -133,3 +133,29 @@ func CompareModels(live, replay *refmodel.Ledger) string {
 	}
 	return ""
 }
+
+type refmodelLog = refmodel.Log
+
+func txToModel(tx ledger.Transaction) *refmodel.Tx {
+	return &refmodel.Tx{ID: *tx.ID, Postings: toModelPostings(tx.Postings), Timestamp: tm(tx.Timestamp), InsertedAt: tm(tx.InsertedAt), UpdatedAt: tm(tx.UpdatedAt),
+		Reference: tx.Reference, Metadata: map[string]string(tx.Metadata.Copy()), Template: tx.Template}
+}
+
+func logOf(id uint64, typ string, txID *uint64) *refmodel.Log {
+	return &refmodel.Log{ID: id, Type: typ, TxID: txID}
+}
+
+// logsOfPrefix returns the exported logs whose ids the destination already holds (imported prefix case).
+func logsOfPrefix(exported []ledger.Log, existing []*refmodel.Log) []ledger.Log {
+	have := map[uint64]bool{}
+	for _, lg := range existing {
+		have[lg.ID] = true
+	}
+	var out []ledger.Log
+	for _, lg := range exported {
+		if have[*lg.ID] {
+			out = append(out, lg)
+		}
+	}
+	return out
+}
